@@ -150,6 +150,8 @@ class _Rename(ast.NodeTransformer):
 
     def visit_FunctionDef(self, n):
         bound = {a.arg for a in n.args.args + n.args.kwonlyargs + n.args.posonlyargs}
+        if n.name in self.mapping:
+            n.name = self.mapping[n.name]
         return self._scoped(n, bound)
 
     def _comp(self, n):
@@ -355,6 +357,11 @@ class Inliner:
         stored = _stored_names(h.node)
         mapping = {n: n + sfx for n in stored if n in self.caller_names}
         self.caller_names |= {n for n in stored if n not in mapping}
+        # a function defined inside the helper (a closure it returns): one name per reading, the same helper may be read
+        # several times with different arguments
+        for st_ in h.node.body:
+            if isinstance(st_, ast.FunctionDef):
+                mapping[st_.name] = st_.name + sfx
         # the helper builds its result in one local and returns it everywhere (`m = 0.0 ... return m`), and the caller
         # assigns the call to a plain name that the arguments do not mention: the local *is* the caller's variable
         fused = None
@@ -758,6 +765,12 @@ class _BetaArgs(ast.NodeTransformer):
     def visit_Compare(self, n):
         n = self.generic_visit(n)
         # <constant> is [not] None / <constant> ==/!= <constant>   (left behind by substituting a table row)
+        if len(n.ops) == 1 and isinstance(n.ops[0], (ast.Is, ast.IsNot)) and \
+                isinstance(n.left, (ast.Tuple, ast.List, ast.Dict, ast.Set, ast.Lambda)) and \
+                isinstance(n.comparators[0], ast.Constant) and n.comparators[0].value is None and \
+                (isinstance(n.left, ast.Lambda) or all(_pure_simple(e) for e in ast.iter_child_nodes(n.left)
+                                                       if isinstance(e, ast.expr))):
+            return ast.copy_location(ast.Constant(value=isinstance(n.ops[0], ast.IsNot)), n)
         if len(n.ops) == 1 and isinstance(n.left, ast.Constant) and isinstance(n.comparators[0], ast.Constant):
             a, b = n.left.value, n.comparators[0].value
             op = n.ops[0]
@@ -791,6 +804,22 @@ class _BetaArgs(ast.NodeTransformer):
         n = self.generic_visit(n)
         # {True: A, False: B}[c]  is  A if c else B ;  {(False, True): f, ..}[(c1, c2)]  is the nested conditional
         d = n.value
+        # (a, b, c)[1]  is  b   (elements that may be dropped unevaluated: names, constants, attributes, lambdas)
+        if isinstance(n.ctx, ast.Load) and isinstance(d, (ast.Tuple, ast.List)) and isinstance(n.slice, ast.Constant) and \
+                isinstance(n.slice.value, int) and not isinstance(n.slice.value, bool) and \
+                -len(d.elts) <= n.slice.value < len(d.elts) and \
+                not any(isinstance(e, ast.Starred) for e in d.elts) and all(_pure_simple(e) for e in d.elts):
+            return ast.copy_location(d.elts[n.slice.value], n)
+        # {'a': f, 'b': g}[k]  is  f if k == 'a' else g if k == 'b' else <KeyError>   (a dispatch table; k a plain name)
+        if isinstance(n.ctx, ast.Load) and isinstance(d, ast.Dict) and 2 <= len(d.keys) <= 12 and \
+                all(isinstance(k, ast.Constant) and isinstance(k.value, str) for k in d.keys) and \
+                len({k.value for k in d.keys}) == len(d.keys) and isinstance(n.slice, (ast.Name, ast.Attribute)) and \
+                _pure_simple(n.slice) and all(_pure_simple(v) for v in d.values):
+            out = ast.Call(func=ast.Name(id='__no_such_key__', ctx=ast.Load()), args=[copy.deepcopy(n.slice)], keywords=[])
+            for k, v in reversed(list(zip(d.keys, d.values))):
+                out = ast.IfExp(test=ast.Compare(left=copy.deepcopy(n.slice), ops=[ast.Eq()], comparators=[k]),
+                                body=v, orelse=out)
+            return ast.copy_location(out, n)
         # (A if c else B)[k]  is  A[k] if c else B[k]   (k a plain name / constant / attribute: reading it twice is the same)
         if isinstance(n.ctx, ast.Load) and isinstance(d, ast.IfExp) and _pure_simple(n.slice):
             mk = lambda v: ast.Subscript(value=v, slice=copy.deepcopy(n.slice), ctx=ast.Load())
@@ -868,7 +897,8 @@ class _BetaArgs(ast.NodeTransformer):
                     return ast.copy_location(out, n)
         # (f if c else g)(args)  is  f(args) if c else g(args)
         if isinstance(f, ast.IfExp) and not any(isinstance(a, ast.Starred) for a in n.args):
-            mk = lambda fn_: fn_ if isinstance(fn_, ast.Constant) else \
+            mk = lambda fn_: fn_ if isinstance(fn_, ast.Constant) or (
+                isinstance(fn_, ast.Call) and isinstance(fn_.func, ast.Name) and fn_.func.id == '__no_such_key__') else \
                 ast.Call(func=fn_, args=copy.deepcopy(n.args), keywords=copy.deepcopy(n.keywords))
             return ast.copy_location(self.visit(ast.IfExp(test=f.test, body=mk(f.body), orelse=mk(f.orelse))), n)
         # all(P(x) for x in (a, b, c))  is  P(a) and P(b) and P(c)   (any: or) -- same short-circuit order
@@ -1493,6 +1523,53 @@ def tidy_blocks(fn: ast.FunctionDef) -> bool:
                     out += r
                     i += 1
                     continue
+            # a, b, c = (x, y, z)  is  a = x; b = y; c = z   when no target is read on the right
+            if isinstance(st, ast.Assign) and len(st.targets) == 1 and isinstance(st.targets[0], (ast.Tuple, ast.List)) and \
+                    isinstance(st.value, (ast.Tuple, ast.List)) and len(st.targets[0].elts) == len(st.value.elts) and \
+                    all(isinstance(t, ast.Name) for t in st.targets[0].elts) and \
+                    not any(isinstance(e, ast.Starred) for e in st.value.elts):
+                tn = {t.id for t in st.targets[0].elts}
+                if not any(isinstance(y, ast.Name) and y.id in tn for e in st.value.elts for y in ast.walk(e)):
+                    for t, e in zip(st.targets[0].elts, st.value.elts):
+                        out.append(ast.copy_location(ast.Assign(targets=[ast.Name(id=t.id, ctx=ast.Store())], value=e), st))
+                    changed[0] = True
+                    i += 1
+                    continue
+            # case split on a table row:  ROW = T1 if c1 else T2 if c2 else None ; <rest>   becomes
+            #   if c1: <rest with ROW := T1>  elif c2: <rest with ROW := T2>  else: <rest with ROW := None>
+            # (leaves: literal tuples of names / constants, or None; ROW bound nowhere else; a short rest)
+            if isinstance(st, ast.Assign) and len(st.targets) == 1 and isinstance(st.targets[0], ast.Name) and \
+                    isinstance(st.value, ast.IfExp):
+                row = st.targets[0].id
+                leaves, tests = [], []
+                cur = st.value
+                while isinstance(cur, ast.IfExp):
+                    tests.append(cur.test)
+                    leaves.append(cur.body)
+                    cur = cur.orelse
+                leaves.append(cur)
+
+                def leaf_ok(e):
+                    return (isinstance(e, ast.Constant) and e.value is None) or \
+                        (isinstance(e, (ast.Tuple, ast.List)) and e.elts and all(_pure_simple(x) for x in e.elts))
+                rest = stmts[i + 1:]
+                n_rest = sum(1 for r_ in rest for _ in ast.walk(r_) if isinstance(_, ast.stmt))
+                stores_row = sum(1 for x in ast.walk(fn) if isinstance(x, ast.Name) and x.id == row and
+                                 isinstance(x.ctx, ast.Store))
+                if 2 <= len(leaves) <= 8 and all(leaf_ok(e) for e in leaves) and \
+                        any(isinstance(e, (ast.Tuple, ast.List)) for e in leaves) and rest and n_rest <= 16 and \
+                        stores_row == 1 and all(_pure_simple(t) for t in tests) and \
+                        not any(isinstance(x, ast.Name) and isinstance(x.ctx, ast.Store) and
+                                x.id in {y.id for t in tests for y in ast.walk(t) if isinstance(y, ast.Name)}
+                                for r_ in rest for x in ast.walk(r_)):
+                    def arm(leaf):
+                        return block([_Rename({}, {row: leaf}).visit(copy.deepcopy(r_)) for r_ in rest])
+                    node = arm(leaves[-1])
+                    for t, leaf in reversed(list(zip(tests, leaves[:-1]))):
+                        node = [ast.copy_location(ast.If(test=t, body=arm(leaf), orelse=node), st)]
+                    out += node
+                    changed[0] = True
+                    return out
             nxt = stmts[i + 1] if i + 1 < len(stmts) else None
             if isinstance(st, ast.Try) and not st.orelse and not st.finalbody and st.body and st.handlers and \
                     isinstance(st.body[-1], ast.Assign) and len(st.body[-1].targets) == 1 and \
@@ -1516,8 +1593,47 @@ def tidy_blocks(fn: ast.FunctionDef) -> bool:
                     continue
             out.append(st)
             i += 1
+            if isinstance(st, (ast.Return, ast.Raise, ast.Break, ast.Continue)) and i < len(stmts):
+                changed[0] = True          # what follows in this block is never reached
+                break
+        if len(out) > 1 and any(isinstance(x, ast.Pass) for x in out):
+            out = [x for x in out if not isinstance(x, ast.Pass)] or [out[0]]
         return out
     fn.body = block(fn.body)
+    # what reading through leaves unused: a nested def nobody refers to any more, a local that only ever held a function
+    # value / constant and is not read
+    for _round in range(3):
+        loaded = {x.id for x in ast.walk(fn) if isinstance(x, ast.Name) and isinstance(x.ctx, ast.Load)}
+        defs_ = {x.name for x in ast.walk(fn) if isinstance(x, ast.FunctionDef) and x is not fn}
+
+        def dead(st) -> bool:
+            if isinstance(st, ast.FunctionDef) and st.name not in loaded and not st.decorator_list:
+                return True
+            if isinstance(st, ast.Assign) and len(st.targets) == 1 and isinstance(st.targets[0], ast.Name) and \
+                    st.targets[0].id not in loaded and (
+                        (isinstance(st.value, ast.Name) and st.value.id in defs_) or isinstance(st.value, ast.Lambda) or
+                        (isinstance(st.value, ast.Constant) and st.targets[0].id == '_')):
+                return True
+            return False
+
+        def sweep(stmts):
+            out, hit = [], False
+            for st in stmts:
+                if dead(st):
+                    hit = True
+                    continue
+                for fld in ('body', 'orelse', 'finalbody'):
+                    sub = getattr(st, fld, None)
+                    if isinstance(sub, list) and sub and isinstance(sub[0], ast.stmt) and not isinstance(st, ast.FunctionDef):
+                        new_, h_ = sweep(sub)
+                        hit = hit or h_
+                        setattr(st, fld, new_ or ([ast.Pass()] if fld == 'body' else []))
+                out.append(st)
+            return out, hit
+        fn.body, hit_ = sweep(fn.body)
+        if not hit_:
+            break
+        changed[0] = True
     if changed[0]:
         ast.fix_missing_locations(fn)
     return changed[0]
@@ -1528,6 +1644,8 @@ def propagate_callable_locals(fn: ast.FunctionDef, helper_names) -> bool:
     before `build` is bound again (f, g: helper functions -- function values are pure, so reading them again is the same)"""
     changed = [False]
 
+    helper_names = set(helper_names) | {st_.name for st_ in ast.walk(fn) if isinstance(st_, ast.FunctionDef) and st_ is not fn}
+
     def callable_value(v) -> bool:
         if isinstance(v, ast.Name):
             return v.id in helper_names
@@ -1535,8 +1653,10 @@ def propagate_callable_locals(fn: ast.FunctionDef, helper_names) -> bool:
             return callable_value(v.body) and callable_value(v.orelse)
         if isinstance(v, ast.Lambda):
             return True
-        if isinstance(v, ast.Constant) and v.value is None:
+        if isinstance(v, ast.Constant) and (v.value is None or isinstance(v.value, (bool, str))):
             return True
+        if isinstance(v, ast.Call) and isinstance(v.func, ast.Name) and v.func.id == '__no_such_key__':
+            return True       # the missing-key leaf of a dispatch table read as a conditional
         return False
 
     def block(stmts):
@@ -1562,6 +1682,16 @@ def propagate_callable_locals(fn: ast.FunctionDef, helper_names) -> bool:
                                 changed[0] = True
                                 n.func = copy.deepcopy(v)
                             return n
+
+                        def visit_Name(self, n):
+                            # a function value / constant read as a value (`g = f if c else h`, `if flag:`)
+                            if n.id == x and isinstance(n.ctx, ast.Load) and x not in stores and not (free & stores):
+                                changed[0] = True
+                                return ast.copy_location(copy.deepcopy(v), n)
+                            return n
+
+                        def visit_Lambda(self, n):
+                            return n if x in {a.arg for a in n.args.args} else self.generic_visit(n)
                     Sub().visit(later)
                     if x in stores or (free & stores):
                         break
@@ -1704,6 +1834,25 @@ def functional_to_loops(fn: ast.FunctionDef, helper_names=()) -> bool:
                     return ast.Assign(targets=copy.deepcopy(st.targets), value=e) if isinstance(st, ast.Assign) \
                         else ast.Return(value=e)
                 new_if = ast.If(test=st.value.test, body=[arm_stmt(st.value.body)], orelse=[arm_stmt(st.value.orelse)])
+                ast.copy_location(new_if, st)
+                ast.fix_missing_locations(new_if)
+                changed[0] = True
+                out += block([new_if])
+                continue
+            # acc.append(A if c else B)  (also AugAssign values) with a helper call in an arm: one statement per arm
+            ife = None
+            if isinstance(st, ast.Expr) and isinstance(st.value, ast.Call) and len(st.value.args) == 1 and \
+                    not st.value.keywords and isinstance(st.value.args[0], ast.IfExp) and _pure_simple(st.value.func):
+                ife = st.value.args[0]
+                mk_ = lambda e: ast.Expr(value=ast.Call(func=copy.deepcopy(st.value.func), args=[e], keywords=[]))
+            elif isinstance(st, ast.AugAssign) and isinstance(st.value, ast.IfExp) and isinstance(st.target, ast.Name):
+                ife = st.value
+                mk_ = lambda e: ast.AugAssign(target=copy.deepcopy(st.target), op=st.op, value=e)
+            if ife is not None and helper_names and any(
+                    isinstance(y, ast.Call) and ((isinstance(y.func, ast.Name) and y.func.id in helper_names) or
+                                                 (isinstance(y.func, ast.Attribute) and y.func.attr in helper_names))
+                    for arm in (ife.body, ife.orelse) for y in ast.walk(arm)):
+                new_if = ast.If(test=ife.test, body=[mk_(ife.body)], orelse=[mk_(ife.orelse)])
                 ast.copy_location(new_if, st)
                 ast.fix_missing_locations(new_if)
                 changed[0] = True
